@@ -11,6 +11,14 @@ EXTRA = {
     "C05": [("SafeC.strncpyG_two_handlers", "SafeC.Proofs.CopyWrappers", "witness", "for max > RSIZE_MAX_STR the inner strnlen_s reports too: why the wrappers need max <= RSIZE_MAX_STR")],
     "C07": [("SafeC.copyLoop_overlap", "SafeC.Proofs.CopyOverlap", "lemma", "the loop reaches the bumper after exactly g iterations")],
     "C08": [("SafeC.nullSlack_ok", "SafeC.Lemmas", "lemma", "both slack strategies (memset > 0x20, byte loop) zero the whole tail")],
+    "C18": [("SafeC.setPrologue_ok", "SafeC.Proofs.MemSet", "lemma", "mem_prim_set alignment prologue: k <= count bytes stored, stops aligned or exhausted"),
+            ("SafeC.setBlocks_ok", "SafeC.Proofs.MemSet", "lemma", "mem_prim_set 16-way unrolled body, induction on the block count: q*128 bytes"),
+            ("SafeC.setWords_ok", "SafeC.Proofs.MemSet", "lemma", "mem_prim_set case-15..1 chain: k qwords"),
+            ("SafeC.setTail_ok", "SafeC.Proofs.MemSet", "lemma", "mem_prim_set byte tail"),
+            ("SafeC.setElemBlocks_ok", "SafeC.Proofs.MemSet", "lemma", "mem_prim_set16/32 unrolled body, induction on the block count"),
+            ("SafeC.setBodyG_spec", "SafeC.Proofs.Erase", "lemma", "the shared 'n > dmax ? report, clamp : set' tail of memset_s/16/32: complete outcome"),
+            ("SafeC.memset_s_spec", "SafeC.Proofs.Erase", "lemma", "memset_s: complete outcome of every call (success iff, fill on success, handler + clamp on failure)"),
+            ("SafeC.strzero_s_spec", "SafeC.Proofs.Erase", "lemma", "strzero_s: complete outcome of every call, both slack configurations")],
 }
 
 
